@@ -1060,6 +1060,191 @@ def _substitute_cfg() -> dict:
     return cfg
 
 
+# ---------------------------------------------------------------------------------------------- the compiled-pattern cache
+def _fixup_cache(vtree: ast.Module, other_trees: dict[str, ast.Module]) -> dict:
+    """`EntityFixup._matcher` caches the compiled pattern: every method that may change the key set of the table resets it
+    (SM/C17Cache.v).  One shape per method of the class; uses of the two attributes elsewhere are counted."""
+    cls = next((n for n in vtree.body if isinstance(n, ast.ClassDef) and n.name == 'EntityFixup'), None)
+    if cls is None:
+        raise TranslateError('vmf.py: class EntityFixup not found')
+    sub_fn = _find_func(vtree, 'substitute', 'EntityFixup')
+
+    def self_attr(e: ast.AST, recv: str = 'self') -> str | None:
+        return e.attr if isinstance(e, ast.Attribute) and isinstance(e.value, ast.Name) and e.value.id == recv else None
+    # the cache attribute: the receiver of .sub(); it is compiled under `if self.C is None:` from another attribute, the table
+    subs = [n for n in ast.walk(sub_fn) if isinstance(n, ast.Call) and isinstance(n.func, ast.Attribute) and n.func.attr in ('sub', 'subn')
+            and self_attr(n.func.value)]
+    if len(subs) != 1:
+        raise TranslateError('substitute: the pattern that is used is not an attribute of self')
+    C = self_attr(subs[0].func.value)
+    guards = [n for n in ast.walk(sub_fn) if isinstance(n, ast.If) and isinstance(n.test, ast.Compare) and self_attr(n.test.left) == C
+              and len(n.test.ops) == 1 and isinstance(n.test.ops[0], ast.Is) and isinstance(n.test.comparators[0], ast.Constant)
+              and n.test.comparators[0].value is None and not n.orelse]
+    stores_c = [n for n in ast.walk(sub_fn) if isinstance(n, ast.Attribute) and isinstance(n.ctx, ast.Store) and self_attr(n) == C]
+    if len(guards) != 1 or len(stores_c) != 1 or not any(x is stores_c[0] for x in ast.walk(guards[0])):
+        raise TranslateError(f'substitute: `if self.{C} is None: self.{C} = re.compile(...)` not found')
+    tabs = {self_attr(x) for x in ast.walk(guards[0]) if self_attr(x) and self_attr(x) != C}
+    if len(tabs) != 1:
+        raise TranslateError(f'substitute: the pattern is compiled from {sorted(tabs)}, expected one attribute of self')
+    T = tabs.pop()
+    if any(isinstance(x, ast.Attribute) and isinstance(x.ctx, (ast.Store, ast.Del)) and self_attr(x) == T for x in ast.walk(sub_fn)) or \
+            any(isinstance(x, ast.Subscript) and isinstance(x.ctx, (ast.Store, ast.Del)) and self_attr(x.value) == T for x in ast.walk(sub_fn)):
+        raise TranslateError(f'substitute writes self.{T}')
+
+    def is_none(e: ast.expr | None) -> bool:
+        return isinstance(e, ast.Constant) and e.value is None
+
+    def same_keys(e: ast.expr) -> bool:
+        """A dict with exactly the keys of self.T."""
+        if isinstance(e, ast.DictComp) and len(e.generators) == 1:
+            g = e.generators[0]
+            it = g.iter
+            if not g.ifs and isinstance(it, ast.Call) and isinstance(it.func, ast.Attribute) and not it.args and self_attr(it.func.value) == T:
+                if it.func.attr == 'items' and isinstance(g.target, ast.Tuple) and len(g.target.elts) == 2 and isinstance(g.target.elts[0], ast.Name):
+                    return isinstance(e.key, ast.Name) and e.key.id == g.target.elts[0].id
+                if it.func.attr == 'keys' and isinstance(g.target, ast.Name):
+                    return isinstance(e.key, ast.Name) and e.key.id == g.target.id
+            if not g.ifs and self_attr(it) == T and isinstance(g.target, ast.Name):
+                return isinstance(e.key, ast.Name) and e.key.id == g.target.id
+        if isinstance(e, ast.Call) and not e.keywords:
+            if isinstance(e.func, ast.Name) and e.func.id == 'dict' and len(e.args) == 1 and self_attr(e.args[0]) == T:
+                return True
+            if isinstance(e.func, ast.Attribute) and e.func.attr == 'copy' and not e.args and self_attr(e.func.value) == T:
+                return True
+        return False
+
+    shapes: list[tuple[str, str]] = []
+    detail: list[str] = []
+    for fn in cls.body:
+        if not isinstance(fn, ast.FunctionDef) or _is_overload(fn) or fn is sub_fn:
+            continue
+        params = fn.args.posonlyargs + fn.args.args
+        if not params or params[0].arg != 'self':
+            if any(isinstance(x, ast.Attribute) and x.attr in (C, T) for x in ast.walk(fn)):
+                raise TranslateError(f'EntityFixup.{fn.name}: touches {C}/{T} without `self`')
+            continue
+        # statement lists, with the chain of (list, index) from the function body down to every statement
+        chains: dict[int, list[tuple[list, int]]] = {}
+
+        def walk_list(lst: list[ast.stmt], up: list[tuple[list, int]]) -> None:
+            for i, st in enumerate(lst):
+                here = up + [(lst, i)]
+                for x in ast.walk(st):
+                    chains.setdefault(id(x), here)            # innermost wins below
+                for field in ('body', 'orelse', 'finalbody'):
+                    sub = getattr(st, field, None)
+                    if isinstance(sub, list) and sub and isinstance(sub[0], ast.stmt) and not isinstance(st, (ast.FunctionDef, ast.ClassDef)):
+                        walk_list2(sub, here)
+                for h in getattr(st, 'handlers', []):
+                    walk_list2(h.body, here)
+
+        def walk_list2(lst: list[ast.stmt], up: list[tuple[list, int]]) -> None:
+            for i, st in enumerate(lst):
+                here = up + [(lst, i)]
+                for x in ast.walk(st):
+                    chains[id(x)] = here
+                for field in ('body', 'orelse', 'finalbody'):
+                    sub = getattr(st, field, None)
+                    if isinstance(sub, list) and sub and isinstance(sub[0], ast.stmt) and not isinstance(st, (ast.FunctionDef, ast.ClassDef)):
+                        walk_list2(sub, here)
+                for h in getattr(st, 'handlers', []):
+                    walk_list2(h.body, here)
+        walk_list2(_body(fn), [])
+        resets = [st for st in ast.walk(fn) if isinstance(st, (ast.Assign, ast.AnnAssign)) and is_none(st.value)
+                  and all(self_attr(t) == C for t in (st.targets if isinstance(st, ast.Assign) else [st.target]))]
+        changes: list[ast.AST] = []
+        for x in ast.walk(fn):
+            if isinstance(x, ast.Subscript) and isinstance(x.ctx, (ast.Store, ast.Del)) and self_attr(x.value) == T:
+                changes.append(x)
+            elif isinstance(x, ast.Call) and isinstance(x.func, ast.Attribute) and x.func.attr in MUTATING_METHODS and self_attr(x.func.value) == T:
+                changes.append(x)
+            elif isinstance(x, ast.Attribute) and isinstance(x.ctx, (ast.Store, ast.Del)) and self_attr(x) == T:
+                changes.append(x)
+            elif isinstance(x, ast.Attribute) and isinstance(x.ctx, ast.Store) and self_attr(x) == C and not any(
+                    x in (r.targets if isinstance(r, ast.Assign) else [r.target]) for r in resets):
+                raise TranslateError(f'EntityFixup.{fn.name}: self.{C} is assigned something other than None')
+            elif isinstance(x, ast.Name) and x.id == 'self' and isinstance(x.ctx, ast.Load):
+                pass
+
+        def reset_reaches(site: ast.AST) -> bool:
+            for lst, i in reversed(chains.get(id(site), [])):
+                for r in resets:
+                    if r in lst:
+                        j = lst.index(r)
+                        lo, hi = min(i, j), max(i, j)
+                        if not any(isinstance(m, (ast.Return, ast.Raise, ast.Continue, ast.Break)) for m in lst[lo + 1:hi]):
+                            return True
+            return False
+        # another object of the class built from this one
+        others: dict[str, dict[str, ast.expr]] = {}
+        for st in ast.walk(fn):
+            if isinstance(st, ast.Assign) and len(st.targets) == 1 and isinstance(st.targets[0], ast.Attribute) \
+                    and isinstance(st.targets[0].value, ast.Name) and st.targets[0].value.id != 'self' and st.targets[0].attr in (C, T):
+                others.setdefault(st.targets[0].value.id, {})[st.targets[0].attr] = st.value
+        for x in ast.walk(fn):
+            if isinstance(x, ast.Attribute) and x.attr in (C, T) and not (isinstance(x.value, ast.Name)):
+                raise TranslateError(f'EntityFixup.{fn.name}: `{ast.unparse(x)[:50]}`: {C}/{T} of an object that is not a plain name')
+            if isinstance(x, ast.Attribute) and x.attr in (C, T) and isinstance(x.value, ast.Name) and x.value.id != 'self' \
+                    and not (isinstance(x.ctx, ast.Store) and x.value.id in others):
+                raise TranslateError(f'EntityFixup.{fn.name}: `{ast.unparse(x)[:50]}` read or deleted on another object')
+        # the table must not be handed to anything this census cannot follow (alias, argument, return value)
+        par: dict[int, ast.AST] = {}
+        for n in ast.walk(fn):
+            for c in ast.iter_child_nodes(n):
+                par[id(c)] = n
+        for x in ast.walk(fn):
+            if self_attr(x) != T or not isinstance(x.ctx, ast.Load):
+                continue
+            pn = par.get(id(x))
+            fine = (isinstance(pn, ast.Subscript) and pn.value is x) or (isinstance(pn, ast.Attribute) and pn.value is x) \
+                or (isinstance(pn, ast.Compare) and x in pn.comparators) or (isinstance(pn, (ast.For, ast.comprehension)) and pn.iter is x) \
+                or (isinstance(pn, ast.Call) and x in pn.args and isinstance(pn.func, ast.Name) and pn.func.id in READ_ONLY_BUILTINS) \
+                or (isinstance(pn, ast.Compare) and pn.left is x and all(isinstance(o, (ast.Is, ast.IsNot)) for o in pn.ops))
+            if not fine:
+                raise TranslateError(f'EntityFixup.{fn.name}:{x.lineno}: self.{T} escapes (`{ast.unparse(pn)[:50] if pn is not None else ""}`)')
+        if changes:
+            ok = all(reset_reaches(c) for c in changes)
+            shapes.append((fn.name, f'(SChange {cb_(ok)})'))
+            detail.append(f'{fn.name}: {len(changes)} key-changing site(s), cache reset {"at all" if ok else "MISSING at some"}')
+        elif resets:
+            shapes.append((fn.name, '(SChange true)'))
+        for recv, d in sorted(others.items()):
+            if C not in d or T not in d:
+                raise TranslateError(f'EntityFixup.{fn.name}: `{recv}` gets only one of {C}/{T}')
+            if is_none(d[C]):
+                copies = False
+            elif self_attr(d[C]) == C:
+                copies = True
+            else:
+                raise TranslateError(f'EntityFixup.{fn.name}: `{recv}.{C} = {ast.unparse(d[C])[:40]}`')
+            shapes.append((fn.name, f'(SCopy {cb_(same_keys(d[T]))} {cb_(copies)})'))
+            detail.append(f'{fn.name}: builds `{recv}` (same keys: {same_keys(d[T])}, cache copied: {copies})')
+        if not changes and not resets and not others:
+            shapes.append((fn.name, 'SKeep'))
+    # elsewhere: the cache attribute is private to the class; nobody else edits a dict reached through an attribute named T
+    foreign: list[str] = []
+    for fname, tree in [('vmf.py', vtree)] + sorted(other_trees.items()):
+        inside = {id(x) for x in ast.walk(cls)} if fname == 'vmf.py' else set()
+        for x in ast.walk(tree):
+            if id(x) in inside:
+                continue
+            if isinstance(x, ast.Attribute) and x.attr == C:
+                foreign.append(f'{fname}:{x.lineno}: {ast.unparse(x)[:50]}')
+            if isinstance(x, ast.Subscript) and isinstance(x.ctx, (ast.Store, ast.Del)) and isinstance(x.value, ast.Attribute) and x.value.attr == T:
+                foreign.append(f'{fname}:{x.lineno}: {ast.unparse(x)[:50]}')
+            if isinstance(x, ast.Call) and isinstance(x.func, ast.Attribute) and x.func.attr in MUTATING_METHODS \
+                    and isinstance(x.func.value, ast.Attribute) and x.func.value.attr == T:
+                foreign.append(f'{fname}:{x.lineno}: {ast.unparse(x)[:50]}')
+            if isinstance(x, ast.Attribute) and x.attr == T and isinstance(x.ctx, (ast.Store, ast.Del)) and not (
+                    isinstance(x.value, ast.Name) and x.value.id == 'self'):
+                foreign.append(f'{fname}:{x.lineno}: {ast.unparse(x)[:50]}')
+    return {'cache_attr': C, 'table_attr': T, 'shapes': shapes, 'detail': detail, 'foreign': foreign}
+
+
+def cb_(b: bool) -> str:
+    return 'true' if b else 'false'
+
+
 # ---------------------------------------------------------------------------------------------- value sites of collapse_one
 SUBST_CALL, NAME_CALL, KEY_CALL = 'inst.fixup.substitute', 'inst.fixup_name', 'inst.fixup_key'
 PARSE_CALLS = {'Angle.from_str', 'Vec.from_str', 'srctools.conv_float', 'conv_float', 'Matrix.from_angstr', 'srctools.conv_int', 'conv_int'}
@@ -1295,6 +1480,9 @@ def _immutable_value(e: ast.expr | None) -> bool:
         return True
     if isinstance(e, ast.Call) and ast.unparse(e.func) in TYPING_CALLS:
         return True
+    if isinstance(e, ast.Call) and ast.unparse(e.func) in ('chr', 'str', 'int', 'float', 'bytes') and not e.keywords \
+            and all(isinstance(a, ast.Constant) for a in e.args):
+        return True
     if isinstance(e, ast.UnaryOp) and isinstance(e.operand, ast.Constant):
         return True
     if isinstance(e, (ast.Name, ast.Attribute, ast.Subscript)) :
@@ -1304,7 +1492,7 @@ def _immutable_value(e: ast.expr | None) -> bool:
     return False
 
 
-def _module_state(tree: ast.Module) -> dict:
+def _module_state(tree: ast.Module, strict: bool = True) -> dict:
     """Module-level objects of instancing.py that live as long as the process and can change: name -> 'logger' | 'mutable';
     plus class-level ones (reported, they must not exist: reads through `self.` are not followed)."""
     names: dict[str, str] = {}
@@ -1318,7 +1506,9 @@ def _module_state(tree: ast.Module) -> dict:
             if 'TypeAlias' in ast.unparse(n.annotation):
                 continue
         elif isinstance(n, ast.Assign):
-            raise TranslateError(f'instancing.py:{n.lineno}: chained module-level assignment')
+            if strict or any(isinstance(t, ast.Name) for t in n.targets):
+                raise TranslateError(f'line {n.lineno}: chained module-level assignment')
+            continue          # Class.A = Class.b = ...: class attributes filled in at import time
         if isinstance(tg, ast.Name):
             if tg.id.startswith('__') and tg.id.endswith('__'):
                 continue
@@ -1326,8 +1516,14 @@ def _module_state(tree: ast.Module) -> dict:
                 names[tg.id] = 'logger'
             elif isinstance(val, ast.Name) or not _immutable_value(val):
                 names[tg.id] = 'mutable'
-        elif tg is not None:
-            raise TranslateError(f'instancing.py:{n.lineno}: module-level assignment target `{ast.unparse(tg)[:40]}`')
+        elif tg is not None and (strict or not isinstance(tg, (ast.Attribute, ast.Tuple))):
+            raise TranslateError(f'line {n.lineno}: module-level assignment target `{ast.unparse(tg)[:40]}`')
+        elif isinstance(tg, ast.Tuple):
+            for t in tg.elts:
+                if not isinstance(t, ast.Name):
+                    raise TranslateError(f'line {n.lineno}: module-level assignment target `{ast.unparse(tg)[:40]}`')
+                names[t.id] = 'mutable'
+
         if isinstance(n, ast.ClassDef):
             is_enum = any(ast.unparse(b).split('.')[-1] in ('Enum', 'IntEnum', 'Flag', 'IntFlag') for b in n.bases)
             for c in n.body:
@@ -1341,6 +1537,74 @@ def _module_state(tree: ast.Module) -> dict:
             for nm in n.names:
                 names[nm] = 'mutable'
     return {'names': names, 'class_level': class_level}
+
+
+READ_ONLY_METHODS = {'get', 'items', 'keys', 'values', 'index', 'count', 'copy', 'join', 'format', 'match', 'fullmatch', 'search',
+                     'finditer', 'findall', 'sub', 'split', 'unpack', 'unpack_from', 'pack', 'iter_unpack', 'size', 'startswith',
+                     'endswith', 'casefold', 'lower', 'upper', 'encode', 'translate', 'pattern', 'isdisjoint', 'issubset', 'issuperset'}
+READ_ONLY_BUILTINS = {'len', 'enumerate', 'sorted', 'list', 'tuple', 'dict', 'set', 'frozenset', 'reversed', 'zip', 'iter', 'min', 'max',
+                      'sum', 'any', 'all', 'isinstance', 'str', 'repr', 'bool', 'map', 'filter'}
+
+
+def _foreign_module_state(tree: ast.Module, fname: str) -> dict:
+    """Module-level objects of another module collapse_one runs code of (vmf.py): a table that no function ever updates is
+    a constant of the process.  Counted: update sites inside functions (`global`, mutating method, store / del / augmented
+    assignment through the name) and escapes (the object handed to something this census cannot follow)."""
+    ms = _module_state(tree, strict=False)
+    mut = {k for k, v in ms['names'].items() if v == 'mutable'}
+    # names bound to functions / classes / imports are not data
+    updates: list[str] = []
+    escapes: list[str] = []
+    parents: dict[int, ast.AST] = {}
+    for n in ast.walk(tree):
+        for c in ast.iter_child_nodes(n):
+            parents[id(c)] = n
+    def root(e: ast.AST):
+        while isinstance(e, (ast.Subscript, ast.Attribute)):
+            e = e.value
+        return e.id if isinstance(e, ast.Name) else None
+    for fn in ast.walk(tree):
+        if not isinstance(fn, (ast.FunctionDef, ast.AsyncFunctionDef, ast.Lambda)):
+            continue
+        shadow = {a.arg for a in fn.args.args + fn.args.kwonlyargs + fn.args.posonlyargs} | \
+            {x.id for x in ast.walk(fn) if isinstance(x, ast.Name) and isinstance(x.ctx, ast.Store)}
+        declared = {nm for x in ast.walk(fn) if isinstance(x, ast.Global) for nm in x.names}
+        for x in ast.walk(fn):
+            if isinstance(x, ast.Global):
+                updates += [f'{fname}:{x.lineno}: global {nm}' for nm in x.names]
+            if not (isinstance(x, ast.Name) and x.id in mut and (x.id not in shadow or x.id in declared)):
+                continue
+            par = parents.get(id(x))
+            where = f'{fname}:{x.lineno}: {ast.unparse(par)[:60] if par is not None else x.id}'
+            if isinstance(x.ctx, (ast.Store, ast.Del)):
+                updates.append(where)
+            elif isinstance(par, ast.Subscript) and par.value is x:
+                if isinstance(par.ctx, (ast.Store, ast.Del)) or isinstance(parents.get(id(par)), ast.AugAssign) and parents[id(par)].target is par:
+                    updates.append(where)
+                elif isinstance(parents.get(id(par)), (ast.Subscript, ast.Attribute)) and isinstance(parents[id(par)].ctx, (ast.Store, ast.Del)):
+                    updates.append(where)          # X[k][j] = v, X[k].attr = v
+            elif isinstance(par, ast.Attribute) and par.value is x:
+                g = parents.get(id(par))
+                if isinstance(par.ctx, (ast.Store, ast.Del)) or par.attr in MUTATING_METHODS:
+                    updates.append(where)
+                elif not (isinstance(g, ast.Call) and g.func is par and par.attr in READ_ONLY_METHODS) and par.attr not in READ_ONLY_METHODS:
+                    escapes.append(where)
+            elif isinstance(par, ast.Compare) and x in par.comparators and all(isinstance(o, (ast.In, ast.NotIn)) for o in par.ops):
+                pass
+            elif isinstance(par, (ast.For, ast.comprehension)) and par.iter is x:
+                pass
+            elif isinstance(par, ast.Call) and x in par.args and isinstance(par.func, ast.Name) and par.func.id in READ_ONLY_BUILTINS:
+                pass
+            elif isinstance(par, ast.Call) and x in par.args and isinstance(par.func, ast.Attribute) and par.func.attr in READ_ONLY_METHODS \
+                    and root(par.func) not in mut:
+                pass                                  # text.split(SEP), SEP handed to a read-only method of something else
+            elif isinstance(par, ast.Starred) or isinstance(par, ast.keyword) and par.arg is None:
+                pass                                  # f(*X) / f(**X): a copy is passed
+            elif isinstance(par, (ast.JoinedStr, ast.FormattedValue, ast.BinOp, ast.BoolOp, ast.UnaryOp, ast.IfExp)):
+                pass                                  # a value computed from it (immutable result for str / int operands)
+            else:
+                escapes.append(where)
+    return {'module_level': sorted(mut), 'class_level': ms['class_level'], 'updates': updates, 'escapes': escapes}
 
 
 class _Skel:
@@ -1934,6 +2198,16 @@ def translate() -> tuple[str, dict]:
     E.lines.append('Definition g_process_state_functions : list (list N * skel) := [\n  ' +
                    ';\n  '.join(f'({_coq_codes(qn)}, {sk})' for qn, sk in ps['functions']) + '].')
     E.lines.append(f'Definition g_module_state_untracked : nat := {len(ps["class_level"]) + len(ps["logger_misuse"]) + len(ps["hidden_state"])}.')
+    # vmf.py (copy / localise / substitute run there): its module-level tables are never updated by a function and never escape
+    vs_state = _foreign_module_state(ast.parse(src_text('vmf.py')), 'vmf.py')
+    side['vmf_module_state'] = vs_state
+    fc = _fixup_cache(ast.parse(src_text('vmf.py')), {'instancing.py': itree})
+    side['fixup_pattern_cache'] = fc
+    E.lines.append('Definition g_fixup_cache_shapes : list (list N * shape) := [\n  ' +
+                   ';\n  '.join(f'({_coq_codes(nm)}, {sh})' for nm, sh in fc['shapes']) + '].')
+    E.lines.append(f'Definition g_fixup_cache_foreign : nat := {len(fc["foreign"])}.')
+    E.lines.append(f'Definition g_vmf_module_state_updates : nat := {len(vs_state["updates"])}.')
+    E.lines.append(f'Definition g_vmf_module_state_escapes : nat := {len(vs_state["escapes"])}.')
 
     # collapse_all loop shape
     shape = _collapse_all_shape(_find_func(itree, 'collapse_all'), itree)
@@ -1993,7 +2267,7 @@ def translate() -> tuple[str, dict]:
                        'fixup_key': ast_digest(fk), 'substitute': sc['digest']}
     head = ['(* GENERATED by translate/c17_formulas.py from src/srctools/{math,vmf,instancing}.py. Do not edit. *)',
             'From Coq Require Import Reals ZArith NArith List String.',
-            'From SV Require Import Rot.C17Base SM.C17Name SM.C17Subst SM.C17Sites SM.C17Frame SM.C17Global.',
+            'From SV Require Import Rot.C17Base SM.C17Name SM.C17Subst SM.C17Sites SM.C17Frame SM.C17Global SM.C17Cache.',
             'Import ListNotations.', 'Open Scope string_scope.', 'Open Scope R_scope.', '']
     side['defs'] = sorted(E.defs)
     _LAST.clear()
